@@ -44,6 +44,14 @@ class Custom(InvertibleBasis, MatrixMixin):
         -------
         self : instance
         """
+        # Slicing silently yields fewer columns than requested; n_basis_modes
+        # would then promise more modes than basis_matrix_ holds.
+        if self.n_basis_modes > self.custom_basis_.shape[1]:
+            raise ValueError(
+                "U needs at least n_basis_modes ({}) columns".format(
+                    self.n_basis_modes
+                )
+            )
         self.basis_matrix_ = self.custom_basis_[:, : self.n_basis_modes]
         return self
 
